@@ -8,19 +8,28 @@
 //
 // input:  sc <op>...            blocks are numbered in creation order, 0 = genesis
 //
-//	i:<parent>:<dig>   import a child of block <parent> (StoreTrie, AddBlock, HandleGRANDPADigest,
-//	                   ApplyForcedChanges as dot/core.handleBlock does); <dig> is  n  (no digest),
-//	                   s<delay> (GRANDPA scheduled change), f<delay> (forced change, best
-//	                   finalised block = the finalised number at that time)
+//	i:<parent>:<dig>[:<babe>]
+//	                   import a child of block <parent> (StoreTrie, AddBlock, HandleGRANDPADigest,
+//	                   HandleBABEDigest, ApplyForcedChanges as dot/core.handleBlock does); <dig> is  n
+//	                   (no digest), s<delay> (GRANDPA scheduled change), f<delay> (forced change,
+//	                   best finalised block = the finalised number at that time); <babe> is  e
+//	                   (NextEpochData digest), c (NextConfigData), ec (both)
 //	f:<blk>:<round>    finalise block <blk> in round <round> of the current set, as lib/grandpa and
 //	                   dot/digest do: SetJustification, SetPrevotes, SetPrecommits, SetFinalisedHash,
-//	                   SetLatestRound, ApplyScheduledChanges
+//	                   SetLatestRound, FinalizeBABENextEpochData, FinalizeBABENextConfigData,
+//	                   ApplyScheduledChanges
+//
+// Any number of GRANDPA changes may be pending at once.  When HandleGRANDPADigest, ApplyForcedChanges
+// or ApplyScheduledChanges refuses (e.g. errAlreadyHasForcedChange, errUnfinalizedAncestor) the
+// scenario goes on, as the node does (the digest handler logs the error), and the group of the
+// operation carries a marker err-digest / err-forced / err-sched (not a write unit).
 //	                   (<blk> may be the finalised head itself: a later round finalising it again)
 //
 // observed:  <log shape> # <one result per prefix>   or  err:<op index>:<what>
 //
 //	log shape: one token per atomic unit, "/" between operations:
 //	  st (the trie batch)  jst:<blk> pv:<round>:<set> pc:<round>:<set> hdr:<blk> blb:<blk> arr:<blk> fsn [hsh:<n>+hsh:<n>..] fh:<round>:<set>=<blk>
+//	  ned:<epoch>:<blk> ncd:<epoch>:<blk> (announcements) epd:<epoch> cfd:<epoch> [del-ned:..+..]
 //	  hrs:<round>:<set> lfr:<round> setID:<v> auth:<set> change:<set> (change~:<set> when the key
 //	  already existed: a rewrite of the activation block of an existing set)  other:<key>
 //	prefix result (prefixes from "genesis complete" to the whole log):
@@ -32,6 +41,7 @@ import (
 	"encoding/binary"
 	"encoding/json"
 	"fmt"
+	"strconv"
 	"strings"
 	"testing"
 
@@ -111,6 +121,9 @@ type c36World struct {
 	bs    *BlockState
 	ss    *InmemoryStorageState
 	gs    *GrandpaState
+	es    *EpochState
+	marks map[int][]string // op index -> markers
+	nOps  int
 	hdrs  []*types.Header     // by block index
 	idx   map[common.Hash]int // hash -> block index
 	seen  map[string]bool     // keys written so far (to tell a rewrite of change|s)
@@ -140,7 +153,7 @@ func c36NewWorld() (*c36World, error) {
 	if err != nil {
 		return nil, err
 	}
-	w := &c36World{base: base, opIdx: -1, idx: map[common.Hash]int{}, seen: map[string]bool{}}
+	w := &c36World{base: base, opIdx: -1, idx: map[common.Hash]int{}, seen: map[string]bool{}, marks: map[int][]string{}}
 	rec := &c36RecDB{Database: base, log: &w.log, opIdx: &w.opIdx}
 	tele := c36Telemetry{}
 
@@ -162,7 +175,7 @@ func c36NewWorld() (*c36World, error) {
 	if w.ss, err = NewStorageState(rec, w.bs, tries); err != nil {
 		return nil, err
 	}
-	if _, err = NewEpochStateFromGenesis(rec, w.bs, c36BabeCfg); err != nil {
+	if w.es, err = NewEpochStateFromGenesis(rec, w.bs, c36BabeCfg); err != nil {
 		return nil, err
 	}
 	if w.kr, err = keystore.NewEd25519Keyring(); err != nil {
@@ -177,7 +190,7 @@ func c36NewWorld() (*c36World, error) {
 	return w, nil
 }
 
-func (w *c36World) importBlock(parent int, dig string) error {
+func (w *c36World) importBlock(parent int, dig, babe string) error {
 	if parent < 0 || parent >= len(w.hdrs) {
 		return fmt.Errorf("no such parent")
 	}
@@ -234,11 +247,33 @@ func (w *c36World) importBlock(parent int, dig string) error {
 			return err
 		}
 		if err := w.gs.HandleGRANDPADigest(&blk.Header, d); err != nil {
-			return fmt.Errorf("digest: %w", err)
+			w.marks[w.opIdx] = append(w.marks[w.opIdx], "err-digest")
+		}
+	}
+	if strings.Contains(babe, "e") {
+		d := types.NewBabeConsensusDigest()
+		if err := d.SetValue(types.NextEpochData{Authorities: []types.AuthorityRaw{}, Randomness: [32]byte{byte(me)}}); err != nil {
+			return err
+		}
+		if err := w.es.HandleBABEDigest(&blk.Header, d); err != nil {
+			return fmt.Errorf("babe epoch digest: %w", err)
+		}
+	}
+	if strings.Contains(babe, "c") {
+		v := types.NewVersionedNextConfigData()
+		if err := v.SetValue(types.NextConfigDataV1{C1: 1, C2: uint64(4 + me), SecondarySlots: 1}); err != nil {
+			return err
+		}
+		d := types.NewBabeConsensusDigest()
+		if err := d.SetValue(v); err != nil {
+			return err
+		}
+		if err := w.es.HandleBABEDigest(&blk.Header, d); err != nil {
+			return fmt.Errorf("babe config digest: %w", err)
 		}
 	}
 	if err := w.gs.ApplyForcedChanges(&blk.Header); err != nil {
-		return fmt.Errorf("forced: %w", err)
+		w.marks[w.opIdx] = append(w.marks[w.opIdx], "err-forced")
 	}
 	return nil
 }
@@ -269,8 +304,11 @@ func (w *c36World) finalise(blk int, round uint64) error {
 	if err := w.gs.SetLatestRound(round); err != nil {
 		return err
 	}
+	// dot/digest.handleBlockFinalisation: errors are logged, the handler goes on
+	_ = w.es.FinalizeBABENextEpochData(h)
+	_ = w.es.FinalizeBABENextConfigData(h)
 	if err := w.gs.ApplyScheduledChanges(h); err != nil {
-		return fmt.Errorf("scheduled: %w", err)
+		w.marks[w.opIdx] = append(w.marks[w.opIdx], "err-sched")
 	}
 	return nil
 }
@@ -327,6 +365,31 @@ func (w *c36World) token(o c36Op) string {
 			return pre + "fh:" + vu.X(binary.LittleEndian.Uint64(h[:8])) + ":" + vu.X(binary.LittleEndian.Uint64(h[8:])) + "=" + w.blkOf(o.v)
 		}
 	}
+	if r, ok := c36HasPrefix(k, "epoch"); ok {
+		ann := func(kind string, x []byte) string { // "<epoch>:0x<hash>"
+			parts := strings.Split(string(x), ":")
+			if len(parts) == 2 {
+				if e, err := strconv.ParseUint(parts[0], 10, 64); err == nil {
+					if hb, err := common.HexToBytes(parts[1]); err == nil {
+						return pre + kind + ":" + vu.X(e) + ":" + w.blkOf(hb)
+					}
+				}
+			}
+			return pre + kind + ":?"
+		}
+		if x, ok := c36HasPrefix(r, "nextepochdata"); ok {
+			return ann("ned", x)
+		}
+		if x, ok := c36HasPrefix(r, "nextconfigdata"); ok {
+			return ann("ncd", x)
+		}
+		if x, ok := c36HasPrefix(r, "epochinfo"); ok && len(x) == 8 {
+			return pre + "epd:" + vu.X(binary.LittleEndian.Uint64(x))
+		}
+		if x, ok := c36HasPrefix(r, "configinfo"); ok && len(x) == 8 {
+			return pre + "cfd:" + vu.X(binary.LittleEndian.Uint64(x))
+		}
+	}
 	if r, ok := c36HasPrefix(k, "grandpa"); ok {
 		if string(r) == "setID" && len(o.v) == 8 {
 			return pre + "setID:" + vu.X(binary.LittleEndian.Uint64(o.v))
@@ -359,31 +422,39 @@ func (w *c36World) token(o c36Op) string {
 
 func (w *c36World) shape() string {
 	var out []string
-	last := -1
-	for _, u := range w.log[w.nGen:] {
-		if u.opIdx != last && last != -1 {
+	units := w.log[w.nGen:]
+	u := 0
+	for op := 0; op < w.nOps; op++ {
+		if op > 0 {
 			out = append(out, "/")
 		}
-		last = u.opIdx
-		toks := make([]string, len(u.ops))
-		allSt := true
-		for i, o := range u.ops {
-			toks[i] = w.token(o)
-			if toks[i] != "st" {
-				allSt = false
+		for u < len(units) && units[u].opIdx == op {
+			un := units[u]
+			u++
+			toks := make([]string, len(un.ops))
+			allSt := true
+			for i, o := range un.ops {
+				toks[i] = w.token(o)
+				if toks[i] != "st" {
+					allSt = false
+				}
+			}
+			for _, o := range un.ops {
+				w.seen[string(o.k)] = true
+			}
+			switch {
+			case un.batch && allSt:
+				out = append(out, "st")
+			case un.batch:
+				out = append(out, "["+strings.Join(toks, "+")+"]")
+			default:
+				out = append(out, toks[0])
 			}
 		}
-		for _, o := range u.ops {
-			w.seen[string(o.k)] = true
-		}
-		switch {
-		case u.batch && allSt:
-			out = append(out, "st")
-		case u.batch:
-			out = append(out, "["+strings.Join(toks, "+")+"]")
-		default:
-			out = append(out, toks[0])
-		}
+		out = append(out, w.marks[op]...)
+	}
+	if u != len(units) {
+		out = append(out, "/", "unattributed")
 	}
 	if len(out) == 0 {
 		return "-"
@@ -463,13 +534,16 @@ func c36Run(in string) string {
 		return "err:genesis:" + strings.ReplaceAll(err.Error(), " ", "_")
 	}
 	defer w.base.Close()
+	w.nOps = len(f) - 1
 	for i, op := range f[1:] {
 		w.opIdx = i
 		p := strings.Split(op, ":")
 		var err error
 		switch {
 		case p[0] == "i" && len(p) == 3:
-			err = w.importBlock(int(vu.UnX(p[1])), p[2])
+			err = w.importBlock(int(vu.UnX(p[1])), p[2], "")
+		case p[0] == "i" && len(p) == 4:
+			err = w.importBlock(int(vu.UnX(p[1])), p[2], p[3])
 		case p[0] == "f" && len(p) == 3:
 			err = w.finalise(int(vu.UnX(p[1])), vu.UnX(p[2]))
 		default:
@@ -495,6 +569,10 @@ func c36Gen(r *vu.RNG, n int, emit func(string)) {
 	emit("sc i:0:n i:0:n i:1:n i:2:n f:3:1 i:3:s1 i:5:n f:6:2")
 	emit("sc i:0:n f:1:1 f:1:2 i:1:s1 f:1:3 i:2:n f:3:4 f:3:1")
 	emit("sc f:0:1 i:0:n f:0:2 f:1:3")
+	emit("sc i:0:n:e i:0:n:ec i:1:n i:3:n f:3:1 i:4:n:c f:5:2")
+	emit("sc i:0:s1 i:1:s0 i:2:n f:2:1 f:3:2 i:3:n f:4:3")
+	emit("sc i:0:s0 i:0:s1 i:1:f1 i:3:n i:2:n f:4:1 f:4:2")
+	emit("sc i:0:f2 i:1:s0 i:2:n i:3:n f:2:1")
 	for c := 0; c < n; c++ {
 		blocks := []c36GenBlock{{-1, 0}}
 		fin := 0
@@ -514,6 +592,10 @@ func c36Gen(r *vu.RNG, n int, emit func(string)) {
 		}
 		alive := func(b int) bool { return isAnc(fin, b) }
 		nops := r.Range(3, 14)
+		// every third scenario leaves the single-pending class: announcements are made whatever is
+		// pending (several scheduled changes on one chain and on forks, forced and scheduled
+		// together), any live block may be finalised, rounds just keep growing
+		multi := c%3 == 2
 		var ops []string
 		for len(ops) < nops {
 			if r.Chance(7, 10) || len(blocks) < 2 {
@@ -528,7 +610,7 @@ func c36Gen(r *vu.RNG, n int, emit func(string)) {
 				me := len(blocks)
 				num := blocks[p].num + 1
 				dig := "n"
-				if sched < 0 && forced < 0 && r.Chance(1, 3) {
+				if (multi || (sched < 0 && forced < 0)) && r.Chance(1, 3) {
 					d := r.Intn(3)
 					if r.Chance(2, 3) {
 						dig = fmt.Sprintf("s%x", d)
@@ -539,8 +621,12 @@ func c36Gen(r *vu.RNG, n int, emit func(string)) {
 					}
 				}
 				blocks = append(blocks, c36GenBlock{p, num})
-				ops = append(ops, fmt.Sprintf("i:%x:%s", p, dig))
-				if forced >= 0 && isAnc(forced, me) && blocks[forced].num+forcedD == num {
+				babe := ""
+				if r.Chance(1, 4) {
+					babe = []string{":e", ":c", ":ec"}[r.Intn(3)]
+				}
+				ops = append(ops, fmt.Sprintf("i:%x:%s%s", p, dig, babe))
+				if !multi && forced >= 0 && isAnc(forced, me) && blocks[forced].num+forcedD == num {
 					forced = -1 // applied at this import: new set, rounds restart
 					round = 0
 				}
@@ -548,6 +634,10 @@ func c36Gen(r *vu.RNG, n int, emit func(string)) {
 				// finalise a live descendant of the finalised block
 				var cand []int
 				for b := range blocks {
+					if multi && alive(b) {
+						cand = append(cand, b)
+						continue
+					}
 					if b != fin && alive(b) {
 						// a pending scheduled change is either applied by this finalisation (announced
 						// on the finalised chain and effective) or stays pending on a descendant
@@ -574,7 +664,7 @@ func c36Gen(r *vu.RNG, n int, emit func(string)) {
 				round++
 				ops = append(ops, fmt.Sprintf("f:%x:%x", b, round))
 				fin = b
-				if sched >= 0 && isAnc(sched, b) {
+				if !multi && sched >= 0 && isAnc(sched, b) {
 					sched = -1 // applied: new set, rounds restart
 					round = 0
 				}
